@@ -143,7 +143,7 @@ def replaceRange (res : Str) (lo hi : Nat) (rep : Str) : Outcome Str :=
 `name.chars().nth(i + acronym_len)` indexes *characters* with that byte offset, and the replacement
 is applied to `res` at *bytes* `i .. i + acronym_len` where `acronym_len` is a character count -/
 def applyAcronym (U : UnicodeOps) (name : Str) (res : Str) (a : Str) : Outcome Str :=
-  let pat := Rename.toPascal a
+  let pat := Rename.toPascal U a
   let len := pat.length
   (matchIndices name pat).foldlM (init := res) fun res i =>
     if ((name[i + len]?).map fun c => !U.isLower c).getD true then
@@ -159,7 +159,7 @@ def acr (U : UnicodeOps) (cfg : Cfg) (name : Str) : Outcome Str :=
   convertAcronyms U cfg.uppercaseAcronyms name
 
 /-- `Go::format_field_name(name, exported = true)` -/
-def fieldName (U : UnicodeOps) (cfg : Cfg) (name : Str) : Outcome Str := acr U cfg (Rename.toPascal name)
+def fieldName (U : UnicodeOps) (cfg : Cfg) (name : Str) : Outcome Str := acr U cfg (Rename.toPascal U name)
 
 /-! ## comments -/
 
@@ -257,12 +257,12 @@ def renderValue (c : GoValue) : Str :=
   s%"const " ++ c.name ++ s%" " ++ c.ty ++ s%" = " ++ Str.natToStr c.value ++ s%"\n"
 
 /-- `write_const` -/
-def constFacts (cfg : Cfg) (c : RustConst) (st : Imports) : Outcome (GoValue × Imports) :=
+def constFacts (U : UnicodeOps) (cfg : Cfg) (c : RustConst) (st : Imports) : Outcome (GoValue × Imports) :=
   (formatType cfg c.ty st).bind fun (ty, st) =>
-    .ok ({ name := Rename.toPascal c.id.renamed, ty, value := c.expr }, st)
+    .ok ({ name := Rename.toPascal U c.id.renamed, ty, value := c.expr }, st)
 
-def writeConst (cfg : Cfg) (c : RustConst) (st : Imports) : Outcome (Str × Imports) :=
-  (constFacts cfg c st).bind fun (d, st) => .ok (renderValue d, st)
+def writeConst (U : UnicodeOps) (cfg : Cfg) (c : RustConst) (st : Imports) : Outcome (Str × Imports) :=
+  (constFacts U cfg c st).bind fun (d, st) => .ok (renderValue d, st)
 
 /-! ## enums -/
 
@@ -425,7 +425,7 @@ def algVariant (U : UnicodeOps) (cfg : Cfg) (e : RustEnum) (structName tagKey : 
      | .panic s => .panic s
    | .anonymousStruct _ _ _ => (anonName U cfg e variantName).bind fun n => .ok (some n, st)
    | .unit _ _ => .ok (none, st)).bind fun (variantType, st) =>
-  (acr U cfg (Rename.toPascal tagKey)).bind fun tagPart =>
+  (acr U cfg (Rename.toPascal U tagKey)).bind fun tagPart =>
   let constName := structName ++ tagPart ++ s%"Variant" ++ variantName
   (match variantType with
    | some t =>
@@ -455,11 +455,11 @@ def algEnumFacts (U : UnicodeOps) (cfg : Cfg) (e : RustEnum) (tagKey contentKey 
     (customStructs : List Str) (st : Imports) : Outcome (GoAlgEnum × Imports) :=
   (anonStructs U cfg e (structVariants e) st).bind fun (anonymous, st) =>
   (acr U cfg e.id.original).bind fun name =>
-  let contentField := Rename.toCamel contentKey
+  let contentField := Rename.toCamel U contentKey
   (fieldName U cfg tagKey).bind fun tagField =>
   (shortName U e.id.original).bind fun short =>
   (acr U cfg tagKey).bind fun tagAcr =>
-  let keyType := name ++ Rename.toPascal tagAcr ++ s%"s"
+  let keyType := name ++ Rename.toPascal U tagAcr ++ s%"s"
   (algVariants U cfg e name tagKey customStructs e.variants st).bind fun (variants, st) =>
     .ok ({ comments := e.comments, anonymous, name, short, keyType, tagField, contentField,
            tagKey, contentKey, variants }, st)
@@ -496,7 +496,7 @@ def writeItem (U : UnicodeOps) (cfg : Cfg) (customStructs : List Str) (it : Rust
   | .enum e => writeEnum U cfg e customStructs st
   | .struct s => writeStruct U cfg s st
   | .alias a => writeAlias U cfg a st
-  | .const c => writeConst cfg c st
+  | .const c => writeConst U cfg c st
 
 def writeItems (U : UnicodeOps) (cfg : Cfg) (customStructs : List Str) :
     List RustItem → Imports → Outcome (Str × Imports)
